@@ -121,6 +121,151 @@ fn integer_components(ctx: &Ctx, report: &mut Report) {
     report.add(m);
 }
 
+/// float colour types outside the conversion table (Lms, the CAM16 family): the same contract relations, on the cross
+/// product of {far below, just below, lower bound, inside, upper bound, just above, far above} per component, bare, as a
+/// slice and Alpha-wrapped; where the type documents an upper bound the clamped component must equal it
+fn extra_float_types(ctx: &Ctx, report: &mut Report) {
+    use palette::{Alpha, Clamp, ClampAssign, IsWithinBounds};
+    let mname = "clamp_contract_lms_cam16";
+    if !ctx.enabled(mname) || ctx.replaying() {
+        return;
+    }
+    let mut m = Monitor::new(
+        mname,
+        "Lms (von Kries / Bradford), Cam16UcsJab, Cam16UcsJmh, the six partial CAM16 types and the full Cam16, f32/f64: every component independently far below, just below, on, inside, on, just above and far above its documented range (full cross product for three components, then seeded): clamp() reports within bounds, leaves an in-bounds colour bit-identical, is idempotent, equals clamp_assign and the slice form bit for bit, each clamped component equals the documented bound it crossed, and the Alpha-wrapped forms do the same with the alpha clamped to [0, 1]; distinct = (type, pattern)",
+    );
+    let mut rng = ctx.rng(mname, 0);
+    macro_rules! ty {
+        ($name:expr, $C:ty, $T:ty, $n:expr, $bounds:expr) => {{
+            // bounds: per component (lower, upper) as Option<f64>; a hue component is (None, None)
+            let bounds: [(Option<f64>, Option<f64>); $n] = $bounds;
+            let classes = |k: usize, rng: &mut pvmon::Rng| -> Vec<f64> {
+                match bounds[k] {
+                    (None, None) => vec![0.0, -725.5, 123.0, 1e6],
+                    (lo, hi) => {
+                        let l = lo.unwrap_or(-50.0);
+                        let h = hi.unwrap_or(l + 150.0);
+                        let w = h - l;
+                        vec![l - 3.0 * w, l - w * 1e-6, l, l + w * rng.unit(), h, h + w * 1e-6, h + 4.0 * w]
+                    }
+                }
+            };
+            let mut inputs: Vec<[f64; $n]> = Vec::new();
+            let cls: Vec<Vec<f64>> = (0..$n).map(|k| classes(k, &mut rng)).collect();
+            let total: usize = cls.iter().map(|c| c.len()).product::<usize>().min(20_000);
+            for idx in 0..total {
+                let mut v = [0.0; $n];
+                let mut r = idx;
+                for k in 0..$n {
+                    v[k] = cls[k][r % cls[k].len()];
+                    r /= cls[k].len();
+                }
+                inputs.push(v);
+            }
+            for _ in 0..ctx.n(5_000, 500_000) {
+                let mut v = [0.0; $n];
+                for k in 0..$n {
+                    let c = classes(k, &mut rng);
+                    v[k] = c[rng.below(c.len() as u64) as usize];
+                }
+                inputs.push(v);
+            }
+            for x in inputs {
+                let xa: [$T; $n] = x.map(|v| v as $T);
+                let c: $C = palette::cast::from_array(xa);
+                let read = |c: &$C| -> Vec<f64> { let a: [$T; $n] = palette::cast::into_array(c.clone()); a.iter().map(|v| *v as f64).collect() };
+                let bits = |v: &Vec<f64>| -> Vec<u64> { v.iter().map(|x| x.to_bits()).collect() };
+                let xin = read(&c);
+                let inp = || json!({"components": xin});
+                let y = c.clone().clamp();
+                let mut z = c.clone();
+                z.clamp_assign();
+                let mut sl = vec![c.clone(); 3];
+                sl[..].clamp_assign();
+                let yy = y.clone().clamp();
+                let (ya, za, yya) = (read(&y), read(&z), read(&yy));
+                m.evals(6);
+                if !y.is_within_bounds() {
+                    m.violate($name, "clamp_result_not_within_bounds", inp(), json!(ya), json!("is_within_bounds() == true"), "");
+                }
+                if c.is_within_bounds() && bits(&ya) != bits(&xin) {
+                    m.violate($name, "clamp_changes_in_bounds_color", inp(), json!(ya), json!(xin), "");
+                }
+                let inside = (0..$n).all(|k| bounds[k].0.map_or(true, |l| xin[k] >= (l as $T) as f64) && bounds[k].1.map_or(true, |h| xin[k] <= (h as $T) as f64));
+                if inside != c.is_within_bounds() {
+                    m.violate($name, "is_within_bounds_differs_from_documented_bounds", inp(), json!(c.is_within_bounds()), json!(inside), "");
+                }
+                if bits(&yya) != bits(&ya) {
+                    m.violate($name, "clamp_not_idempotent", inp(), json!(yya), json!(ya), "");
+                }
+                if bits(&za) != bits(&ya) || !sl.iter().all(|e| bits(&read(e)) == bits(&ya)) {
+                    m.violate($name, "clamp_vs_clamp_assign_or_slice", inp(), json!({"clamp": ya, "clamp_assign": za, "slice": read(&sl[0])}), json!("identical"), "");
+                }
+                for k in 0..$n {
+                    let want = match bounds[k] {
+                        (None, None) => xin[k],
+                        (lo, hi) => {
+                            let mut w = xin[k];
+                            if let Some(l) = lo { if w < (l as $T) as f64 { w = (l as $T) as f64; } }
+                            if let Some(h) = hi { if w > (h as $T) as f64 { w = (h as $T) as f64; } }
+                            w
+                        }
+                    };
+                    if ya[k].to_bits() != want.to_bits() && !(ya[k] == 0.0 && want == 0.0) {
+                        m.violate($name, "clamped_component_is_not_the_documented_bound", inp(), json!({"component": k, "value": ya[k]}), json!(want), "");
+                        break;
+                    }
+                }
+                // Alpha-wrapped
+                for al in [-0.5f64, 0.5, 1.5] {
+                    let wa = Alpha { color: c.clone(), alpha: al as $T };
+                    let wy = wa.clone().clamp();
+                    let mut wz = wa.clone();
+                    wz.clamp_assign();
+                    let want_in = c.is_within_bounds() && (0.0..=1.0).contains(&al);
+                    m.evals(2);
+                    if bits(&read(&wy.color)) != bits(&ya) || bits(&read(&wz.color)) != bits(&ya) || wy.alpha as f64 != al.max(0.0).min(1.0) || wz.alpha as f64 != al.max(0.0).min(1.0) || !wy.is_within_bounds() || wa.is_within_bounds() != want_in {
+                        m.violate(&format!("Alpha<{}>", $name), "alpha_clamp_contract", json!({"components": xin, "alpha": al}), json!({"color": read(&wy.color), "alpha": wy.alpha as f64, "assign_color": read(&wz.color), "within_before": wa.is_within_bounds(), "within_after": wy.is_within_bounds()}), json!({"color": ya, "alpha": al.max(0.0).min(1.0), "within_before": want_in}), "");
+                    }
+                }
+                let pat: u64 = (0..$n).fold(0u64, |a, k| a * 3 + if bounds[k].0.map_or(false, |l| xin[k] < l) { 0 } else if bounds[k].1.map_or(false, |h| xin[k] > h) { 2 } else { 1 });
+                m.cell(pvmon::rng::mix(pvmon::rng::hash_str($name), pat));
+            }
+        }};
+    }
+    use palette::cam16::*;
+    use palette::lms::{BradfordLms, VonKriesLms};
+    use palette::white_point::{D50, D65};
+    const Z: (Option<f64>, Option<f64>) = (Some(0.0), None);
+    const H: (Option<f64>, Option<f64>) = (None, None);
+    macro_rules! both {
+        ($name:expr, $C:ident<$($p:ty),*>, $n:expr, $b:expr) => {
+            ty!(concat!($name, "/f32"), $C<$($p,)* f32>, f32, $n, $b);
+            ty!(concat!($name, "/f64"), $C<$($p,)* f64>, f64, $n, $b);
+        };
+    }
+    let unit = (Some(0.0), Some(1.0));
+    // (the documented clamp bounds: Lms has lower bounds only; CAM16-UCS bounds the lightness, and the colourfulness from
+    // below; a' and b' are free - `min_srgb_a` etc. describe the extent of sRGB, not a bound)
+    let _ = unit;
+    both!("Lms<VonKries,D65>", VonKriesLms<D65>, 3, [Z, Z, Z]);
+    both!("Lms<Bradford,D50>", BradfordLms<D50>, 3, [Z, Z, Z]);
+    both!("Cam16UcsJab", Cam16UcsJab<>, 3, [(Some(0.0), Some(100.0)), H, H]);
+    both!("Cam16UcsJmh", Cam16UcsJmh<>, 3, [(Some(0.0), Some(100.0)), Z, H]);
+    both!("Cam16Jch", Cam16Jch<>, 3, [Z, Z, H]);
+    both!("Cam16Jmh", Cam16Jmh<>, 3, [Z, Z, H]);
+    both!("Cam16Jsh", Cam16Jsh<>, 3, [Z, Z, H]);
+    both!("Cam16Qch", Cam16Qch<>, 3, [Z, Z, H]);
+    both!("Cam16Qmh", Cam16Qmh<>, 3, [Z, Z, H]);
+    both!("Cam16Qsh", Cam16Qsh<>, 3, [Z, Z, H]);
+    m.tolerance = Some("exact".into());
+    m.sample(|| {
+        let a: [f64; 3] = palette::cast::into_array(Cam16UcsJab::<f64>::new(120.0, -70.0, 10.0).clamp());
+        json!({"type": "Cam16UcsJab<f64>", "color": [120.0, -70.0, 10.0], "clamp": a.to_vec()})
+    });
+    report.add(m);
+}
+
 fn main() {
     let ctx = Ctx::from_args("C03");
     let mut report = Report::new(&ctx);
@@ -418,5 +563,6 @@ fn main() {
         }
     }
     integer_components(&ctx, &mut report);
+    extra_float_types(&ctx, &mut report);
     report.finish();
 }
